@@ -35,4 +35,6 @@ for s in seeds:
     r = results[s]
     own = s[:3]
     tag = "MISS" if not r["fired"] else ("own" if own in r["fired"] else "other")
+    if os.path.isfile(os.path.join(V, "seeded", s, "SUPERSEDED.md")):
+        tag = "SUPERSEDED"
     print("%-5s applies=%s %-5s fired=%s errors=%s" % (s, r["applies"], tag, {k: len(v) for k, v in r["fired"].items()}, list(r["errors"])))
